@@ -235,6 +235,17 @@ fn specials_plain() -> Vec<(String, Vec<u8>)> {
         let mut o = sk.clone(); o[1].1.set("Kids", Obj::Arr(kids)); o[1].1.set("Count", Obj::Int(count));
         out.push((label.into(), mkpdf::simple_doc(&o, 1, vec![])));
     }
+    { // intermediate nodes whose /Count values add up beyond 32 bits: [A B B A], A counts 1, B counts 2^31-1 (or 2^32-1)
+        for (label, big) in [("pages-counts-sum-overflow-i32max", 2147483647i64), ("pages-counts-sum-overflow-u32max", 4294967295i64)] {
+            let mut o = vec![(1, dict(vec![("Type", name("Catalog")), ("Pages", rf(2))])),
+                (2, dict(vec![("Type", name("Pages")), ("Kids", arr(vec![rf(3), rf(4), rf(4), rf(3)])), ("Count", Obj::Int(4)), ("MediaBox", ints(&[0, 0, 1, 1]))])),
+                (3, dict(vec![("Type", name("Pages")), ("Parent", rf(2)), ("Kids", arr(vec![rf(5)])), ("Count", Obj::Int(1))])),
+                (4, dict(vec![("Type", name("Pages")), ("Parent", rf(2)), ("Kids", arr(vec![rf(5)])), ("Count", Obj::Int(big))])),
+                (5, dict(vec![("Type", name("Page")), ("Parent", rf(3))]))];
+            o.push((6, dict(vec![("Unused", Obj::Bool(true))])));
+            out.push((label.into(), mkpdf::simple_doc(&o, 1, vec![])));
+        }
+    }
     { // a chain of 40 intermediate nodes (deeper than the supported depth)
         let mut o = vec![(1, dict(vec![("Type", name("Catalog")), ("Pages", rf(2))]))];
         for k in 0..40u32 { o.push((2 + k, dict(vec![("Type", name("Pages")), ("Kids", arr(vec![rf(3 + k)])), ("Count", Obj::Int(1)), ("Parent", rf(if k == 0 { 2 } else { 1 + k }))]))); }
